@@ -1,0 +1,77 @@
+//go:build verif
+
+// Contracts for the fvc verification-condition generator in /verif (comment-only file).
+// C10, second part: the proxy set is what the configuration lists (New), and the accessors that the first
+// part (C10 block of zz_contracts_verif.go) left out.
+
+package fiber
+
+//@ props C10
+
+// ---------------------------------------------------------------------------------------------
+// The proxy set after start-up, in terms of the public configuration (TrustProxyConfig.Proxies)
+// ---------------------------------------------------------------------------------------------
+// listedAddr(e): the entry is taken as a bare address; listedCIDR(e): as a range.
+//@ macro listedAddr(e) = !strContains(e, "/") && parseIPok(e)
+//@ macro listedCIDR(e) = strContains(e, "/") && cidrOK(e)
+// After the first n entries were handed to handleTrustedProxy:
+//   ips     holds exactly the parseable bare addresses among them (keyed by the configured text),
+//   ranges  holds a network for every parseable CIDR entry among them and nothing else.
+//@ macro ipsExact(t, n) = forallS(k, indom(t.ips, k) <==> (listedAddr(k) && exists(i, 0, n, t.Proxies[i] == k)))
+//@ macro rangesOnlyListed(t, n) = forall(k, 0, len(t.ranges), exists(i, 0, n, listedCIDR(t.Proxies[i]) && t.ranges[k] == cidrNet(t.Proxies[i])))
+//@ macro rangesAllListed(t, n) = forall(i, 0, n, listedCIDR(t.Proxies[i]) ==> exists(k, 0, len(t.ranges), t.ranges[k] == cidrNet(t.Proxies[i])))
+
+// What the accessors read from the configuration is the same before and after init(), the last step of New(). (init's
+// frame was `heap`; it is now `app.server`, which implies this clause - it is kept as the explicit statement and as a
+// guard should the frame ever be widened again.)
+//@ macro proxyConfigKept(app) = app.config.TrustProxy == old(app.config.TrustProxy) && app.config.ProxyHeader == old(app.config.ProxyHeader) &&
+//@ ..  app.config.EnableIPValidation == old(app.config.EnableIPValidation) &&
+//@ ..  app.config.TrustProxyConfig.Loopback == old(app.config.TrustProxyConfig.Loopback) && app.config.TrustProxyConfig.Private == old(app.config.TrustProxyConfig.Private) &&
+//@ ..  app.config.TrustProxyConfig.LinkLocal == old(app.config.TrustProxyConfig.LinkLocal) &&
+//@ ..  app.config.TrustProxyConfig.Proxies == old(app.config.TrustProxyConfig.Proxies) && app.config.TrustProxyConfig.ips == old(app.config.TrustProxyConfig.ips) &&
+//@ ..  app.config.TrustProxyConfig.ranges == old(app.config.TrustProxyConfig.ranges) &&
+//@ ..  forall(i, 0, len(app.config.TrustProxyConfig.Proxies), app.config.TrustProxyConfig.Proxies[i] == old(app.config.TrustProxyConfig.Proxies[i])) &&
+//@ ..  forall(k, 0, len(app.config.TrustProxyConfig.ranges), app.config.TrustProxyConfig.ranges[k] == old(app.config.TrustProxyConfig.ranges[k])) &&
+//@ ..  forallS(k, indom(app.config.TrustProxyConfig.ips, k) <==> old(indom(app.config.TrustProxyConfig.ips, k)))
+
+// The state New() returns (its three C10 postconditions); nothing but New()/handleTrustedProxy writes app.config.
+//@ macro proxySetWF(t) = ipsExact(t, len(t.Proxies)) && rangesOnlyListed(t, len(t.Proxies)) && rangesAllListed(t, len(t.Proxies))
+
+// ---------------------------------------------------------------------------------------------
+// Trusted side: what the forwarding headers give
+// ---------------------------------------------------------------------------------------------
+// firstListItem(r, v): r is v up to (not including) its first comma, all of v if it has none.
+// (stated on one-byte substrings, the form in which strings.Index is specified)
+//@ macro firstListItem(r, v) = len(r) <= len(v) && r == v[:len(r)] && forall(j, 0, len(r), v[j:j+1] != ",") && (len(r) < len(v) ==> v[len(r):len(r)+1] == ",")
+
+// subdomainsOf(r, h, o): r is the list of the first n pieces of strings.Split(h, "."), n = count - o, or count when o > count.
+//@ macro subdomainsOf(r, h, o) = len(r) == ite(splitCount(h, ".") - o < 0, splitCount(h, "."), splitCount(h, ".") - o) &&
+//@ ..  forall(i, 0, len(r), r[i] == h[splitLo(h, ".", i):splitHi(h, ".", i)])
+
+// pieceOf(p, v): p is a contiguous, comma-free part of v (one list item of a comma-separated header value, trimmed).
+//@ macro partOf(p, v) = exists(a, 0, len(v) + 1, exists(b, a, len(v) + 1, p == v[a:b]))
+//@ macro pieceOf(p, v) = partOf(p, v) && forall(m, 0, len(p), p[m] != ',')
+
+// ---------------------------------------------------------------------------------------------
+// The Req view (c.Req().X(), req.go) forwards to the context accessors: same untrusted-peer guarantees.
+// (Host, IPs, Subdomains of the view carry their C10 clauses in zz_contracts_c06_verif.go, next to the C06 ones.)
+// ---------------------------------------------------------------------------------------------
+//@ func (*DefaultReq).IsProxyTrusted
+//@   pure
+//@   ensures same-decision: result == trusted(r.ctx, epoch)
+//@ func (*DefaultReq).Secure
+//@   ensures untrusted-iff-tls: !trusted(r.ctx, epoch) ==> (result <==> isTLS(r.ctx.fasthttp, epoch))
+//@   ensures tls-secure: isTLS(r.ctx.fasthttp, epoch) ==> result
+//@ func (*DefaultReq).Hostname
+//@   ensures untrusted-uri-hostname: !trusted(r.ctx, epoch) ==> result == parseAddrHost(uriHost(reqURI(r.ctx.fasthttp.Request, epoch), epoch))
+//@ func (*DefaultReq).IP
+//@   ensures untrusted-remote-ip: !trusted(r.ctx, epoch) || len(r.ctx.app.config.ProxyHeader) == 0 ==> result == ipString(remoteIP(r.ctx.fasthttp, epoch))
+//@   ensures valid-ip: r.ctx.app.config.EnableIPValidation ==> isIPv4(result) || isIPv6(result) || result == ipString(remoteIP(r.ctx.fasthttp, epoch))
+//@ func (*DefaultReq).Port panics
+//@   pure
+//@   ensures port-of-the-connection: result == fmtInt(as(remoteAddr(r.ctx.fasthttp, epoch), *net.TCPAddr).Port)
+//@ func (*DefaultReq).BaseURL
+//@   requires cache-wf: r.ctx.baseURI == "" || r.ctx.baseURI == scheme(r.ctx, epoch) + "://" + host(r.ctx, epoch)
+//@   modifies r.ctx.baseURI
+//@   ensures untrusted-connection-and-host-header: !trusted(r.ctx, epoch) && old(r.ctx.baseURI) == "" ==> result == ite(isTLS(r.ctx.fasthttp, epoch), "https", "http") + "://" + uriHost(reqURI(r.ctx.fasthttp.Request, epoch), epoch)
+//@   ensures cached-value-returned: old(r.ctx.baseURI) != "" ==> result == old(r.ctx.baseURI)
